@@ -34,6 +34,11 @@ Definition bad_name (v : str) : bool :=
 
 Definition is_empty (s : str) : bool := match s with [] => true | _ => false end.
 
+(* a token the lexer reads back whole: no separator, no quote *)
+Definition tok_char (c : N) : bool := negb (is_term c) && negb (c =? c_dquote)%N.
+Definition tok_ok (t : str) : bool := forallb tok_char t.
+Definition in_isize_b (z : Z) : bool := ((isize_min <=? z) && (z <=? isize_max))%Z.
+
 Section Classes.
   Variable dt_parse : str -> option str.
 
@@ -180,11 +185,72 @@ Section Classes.
     else 0.
 
   (* ---------- domain of built queries ---------- *)
+  Variable re_ok : str -> bool.
+
+  (* the to_rfc3339() text of a datetime: one token, classified as a datetime, its own canonical form *)
+  Definition dt_canonical_b (d : str) : bool :=
+    tok_ok d
+    && match get_arg_type dt_parse d false with TDatetime => true | _ => false end
+    && match dt_parse d with Some d' => str_eqb d' d | None => false end
+    && match d with x :: _ => negb (is_ws x) | [] => false end.
+
+  Definition leaf_wf (l : leaf) : bool := match l with LInt z => in_isize_b z | _ => true end.
+  Definition base_wf (b : base) : bool :=
+    match b with
+    | BLeaf l => leaf_wf l
+    | BCmp _ z => in_isize_b z
+    | BDt _ d => dt_canonical_b d
+    | BOr l => forallb leaf_wf l
+    | _ => true
+    end.
+  Definition op_wf (o : dataop) : bool := base_wf (op_base o).
+
   Fixpoint wf_constr (c : constr) : bool :=
     match c with
     | CAnnotation _ _ _ o | CResource _ _ o | CResourceVar _ _ o | CAnnotationVar _ _ _ o => offset_ok o
-    | CLimit b e => ((isize_min <=? b) && (b <=? isize_max) && (isize_min <=? e) && (e <=? isize_max))%Z
+    | CKeyValue _ _ op _ | CValue op _ | CKeyValueVar _ op _ => op_wf op
+    | CRegex r => re_ok r
+    | CLimit b e => in_isize_b b && in_isize_b e
     | CUnion l => match l with [] => false | _ => forallb wf_constr l end
     | _ => true
     end.
+
+  (* no known class applies to the constraint *)
+  Definition class_free (c : constr) : bool :=
+    negb (c_quote c || c_var c || c_float c || c_keyword c || c_depth c || c_kvvar c || c_rel c || c_any c).
 End Classes.
+
+(* ---------- the fixpoint statement at full strength ---------- *)
+Section Statement.
+  Variable dt_parse : str -> option str.
+  Variable re_ok : str -> bool.
+
+  Definition attr_ok (a : str) : bool :=
+    match a with
+    | c :: _ => (c =? c_at)%N && forallb (fun x => negb (is_split x)) a
+    | [] => false
+    end.
+
+  (* queries the grammar can produce or the public API can build: SELECT with any of the six result
+     types, constraints and SELECT sub-queries; DELETE / ADD ANNOTATION with SELECT sub-queries only
+     (assignments make class 1); one attribute list per constraint *)
+  Fixpoint wf_query (top : bool) (q : query) : bool :=
+    match q with
+    | Q name qt optional rt asg cs cas subs attrs =>
+        match rt with Some _ => true | None => false end
+        && match qt with
+           | QSelect => true
+           | _ => top && negb optional && match rt with Some RAnnotation => true | _ => false end
+                  && match cs with [] => true | _ => false end
+           end
+        && forallb (wf_constr dt_parse re_ok) cs
+        && (length cas =? length cs) && forallb (forallb attr_ok) cas && forallb attr_ok attrs
+        && (fix go (l : list query) : bool :=
+              match l with [] => true | s :: l' => wf_query false s && go l' end) subs
+    end.
+
+  (* printing a query and parsing the text gives the same query back, nothing is left over
+     (so printing again gives the same text) *)
+  Definition fixpoint_at (parse : str -> outcome (query * str)) (q : query) : Prop :=
+    forall t, print_query q = Some t -> parse t = Ok (q, []).
+End Statement.
